@@ -53,4 +53,177 @@ theorem two_steps_mono (ops : SpecOps σ K) (ev : σ → Seq → Eval K) (F : Fr
     Score.lt (total ops ev F u) (total ops ev F s) = false :=
   notLower_trans _ _ _ h1 h2
 
+/-! ### the lift from the local problems to the whole problem -/
+
+/-- the exhaustive optimisation loop never ends below the total it started from (no hypothesis on
+    declared best scores: those only matter for optimality, C06) -/
+theorem optExhaustiveLoop_mono (ops : SpecOps σ K) (ev) (hp : PureEval ops ev) (F : Frame σ) (bp : Option K)
+    (s0 : Seq) (vs : List Seq) (bestScore : K) (bestSeq cur : Seq) (st : St σ K)
+    (hsc : bestScore = total ops ev F bestSeq)
+    (hb : Score.lt (total ops ev F bestSeq) (total ops ev F s0) = false)
+    (b cur' : Seq) (st' : St σ K) (h : optExhaustiveLoop ops F bp vs bestScore bestSeq cur st = (.ok b, cur', st')) :
+    Score.lt (total ops ev F b) (total ops ev F s0) = false := by
+  induction vs generalizing bestScore bestSeq cur st with
+  | nil =>
+    simp only [optExhaustiveLoop, Prod.mk.injEq, Except.ok.injEq] at h
+    rw [← h.1]; exact hb
+  | cons v vs ih =>
+    simp only [optExhaustiveLoop] at h
+    obtain ⟨st1, h1, _⟩ := allConstraintsPass_pure ops ev hp F v (logSeq v st)
+    rw [h1] at h
+    cases hf : feasible ops ev F v with
+    | false =>
+      rw [hf] at h
+      exact ih _ _ _ _ hsc hb h
+    | true =>
+      rw [hf] at h
+      obtain ⟨st2, h2, _⟩ := objectiveScoresSum_pure ops ev hp F v st1
+      simp only [h2] at h
+      split at h
+      · rename_i hlt
+        have hv : Score.lt (total ops ev F v) (total ops ev F s0) = false := by
+          cases hx : Score.lt (total ops ev F v) (total ops ev F s0) with
+          | false => rfl
+          | true =>
+            rw [hsc] at hlt
+            have := LawfulScore.lt_trans _ _ _ hlt hx
+            rw [hb] at this; simp at this
+        split at h
+        · simp only [Prod.mk.injEq, Except.ok.injEq] at h
+          rw [← h.1]; exact hv
+        · exact ih _ _ _ _ rfl hv h
+      · exact ih _ _ _ _ hsc hb h
+
+/-- `optimize_by_exhaustive_search()`: a successful return is never below the starting total -/
+theorem optimizeExhaustive_notLower (ops : SpecOps σ K) (ev) (hp : PureEval ops ev) (F : Frame σ) (s : Seq) (st : St σ K)
+    (u : Unit) (t : Seq) (st' : St σ K) (h : optimizeExhaustive ops F s st = (.ok u, t, st')) :
+    Score.lt (total ops ev F t) (total ops ev F s) = false := by
+  simp only [optimizeExhaustive] at h
+  obtain ⟨st1, h1, _⟩ := allConstraintsPass_pure ops ev hp F s st
+  rw [h1] at h
+  cases hf : feasible ops ev F s with
+  | false =>
+    rw [hf] at h
+    obtain ⟨r, st2, h2, _⟩ := constraintsEvaluations_pure ops ev hp s F.constraints st1
+    simp [h2] at h
+  | true =>
+    rw [hf] at h
+    obtain ⟨st2, h2, _⟩ := objectiveScoresSum_pure ops ev hp F s st1
+    simp only [h2] at h
+    split at h
+    · simp at h
+    · split at h
+      · simp at h
+      · rename_i bestSeq cur st3 hloop
+        simp only [Prod.mk.injEq, Except.ok.injEq] at h
+        rw [← h.2.1]
+        exact optExhaustiveLoop_mono ops ev hp F _ s _ _ _ _ _ rfl (LawfulScore.lt_irrefl _) _ _ _ hloop
+
+/-- `optimize_by_random_mutations()`: a successful return is never below the starting total -/
+theorem optimizeRandom_notLower (ops : SpecOps σ K) (ev) (hp : PureEval ops ev) (sett : Settings) (F : Frame σ)
+    (s : Seq) (st : St σ K) (u : Unit) (t : Seq) (st' : St σ K) (h : optimizeRandom ops sett F s st = (.ok u, t, st')) :
+    Score.lt (total ops ev F t) (total ops ev F s) = false := by
+  cases hf : feasible ops ev F s with
+  | false =>
+    obtain ⟨st2, h2⟩ := C02.optimizeRandom_infeasible ops ev hp sett F s st hf
+    rw [h2] at h; simp at h
+  | true =>
+    obtain ⟨r, t2, st2, h2, hres⟩ := C02.optimizeRandom_spec ops ev hp sett F s st hf
+    rw [h2] at h
+    simp only [Prod.mk.injEq] at h
+    obtain ⟨rfl, rfl, rfl⟩ := h
+    exact (hres u rfl).2
+
+/-- **what C09 gives the solver**: on the local problem built for the window `[a, b)` around `s`
+    (objectives with a non-zero boost, localized and re-initialised), a candidate `t` that differs
+    from `s` only inside the window and whose *local* total is not lower has a *global* total that is
+    not lower.  Proved from the per-objective score identity over ℚ below (`totalFaithful_of_scoreFaithful`). -/
+def TotalFaithful (ops : SpecOps σ K) (ev : σ → Seq → Eval K) (lz : σ → Loc → Seq → Option σ)
+    (ini : σ → Seq → Role → σ) (F : Frame σ) : Prop :=
+  ∀ (a b : Nat) (s t : Seq) (LF : Frame σ), C02.AgreeOut a b s t →
+    LF.objectives = C02.localObjectives ops lz ini F a b s →
+    Score.lt (total ops ev LF t) (total ops ev LF s) = false →
+    Score.lt (total ops ev F t) (total ops ev F s) = false
+
+/-- one location of `optimize_objective` never lowers the global total -/
+theorem optimizeLocation_notLower (ops : SpecOps σ K) (ev lz ini) (sett : Settings) (F : Frame σ) (n : Nat)
+    (hp : PureEval ops ev) (hq : C02.PureObj ops lz ini)
+    (hfit : ∀ a b : Int, C15.ChoicesFit n (F.space.localized a b).multichoices)
+    (hT : TotalFaithful ops ev lz ini F) (location : Loc) (s : Seq) (st : St σ K) (hn : s.length = n) :
+    Score.lt (total ops ev F (optimizeLocation ops sett F location s st).2.1) (total ops ev F s) = false ∧
+    (optimizeLocation ops sett F location s st).2.1.length = n := by
+  rcases C02.optimizeLocation_cases ops lz ini hq sett F location s st with h | ⟨a, b, LF, u, ls, st3, st5, hspan, hLFc, hLFo, hLFs, hres, hout⟩
+  · rw [h]; exact ⟨LawfulScore.lt_irrefl _, hn⟩
+  · rw [hout]
+    have key : C02.AgreeOut a b s ls := by
+      have := C02.localOptimize_agree ops sett LF n a b s st3 hn (by rw [hLFs]; exact hfit _ _) (by rw [hLFs]; exact hspan)
+      rw [hres] at this; exact this
+    have hloc : Score.lt (total ops ev LF ls) (total ops ev LF s) = false := by
+      simp only [localOptimize] at hres
+      split at hres
+      · exact optimizeExhaustive_notLower ops ev hp LF s st3 u ls st5 hres
+      · exact optimizeRandom_notLower ops ev hp sett LF s st3 u ls st5 hres
+    exact ⟨hT a b s ls LF key hLFo hloc, key.1.trans hn⟩
+
+/-- **C03 for the whole problem.**  For pure total specifications whose localized objectives are
+    faithful (C09) on a well-formed mutation space: `optimize()` never ends on a sequence whose
+    boost-weighted total is lower than the one it started from — whether it returns or raises, for
+    every objective mix, setting and tape.  Repeating it composes by `notLower_trans`. -/
+theorem optimize_never_lowers (ops : SpecOps σ K) (ev lz ini) (sett : Settings) (F : Frame σ) (n : Nat)
+    (hp : PureEval ops ev) (hq : C02.PureObj ops lz ini)
+    (hfit : ∀ a b : Int, C15.ChoicesFit n (F.space.localized a b).multichoices)
+    (hT : TotalFaithful ops ev lz ini F) (s : Seq) (st : St σ K) (hn : s.length = n) :
+    Score.lt (total ops ev F (optimize ops sett F s st).2.1) (total ops ev F s) = false := by
+  -- every level of the solver keeps "not lower than `s0`" and the length
+  have hlocs : ∀ (locs : List Loc) (s0 s : Seq) (st : St σ K), s.length = n →
+      Score.lt (total ops ev F s) (total ops ev F s0) = false →
+      Score.lt (total ops ev F (optimizeLocations ops sett F locs s st).2.1) (total ops ev F s0) = false ∧
+      (optimizeLocations ops sett F locs s st).2.1.length = n := by
+    intro locs
+    induction locs with
+    | nil => intro s0 s st hn h; exact ⟨h, hn⟩
+    | cons l ls ih =>
+      intro s0 s st hn h
+      simp only [optimizeLocations]
+      have key := optimizeLocation_notLower ops ev lz ini sett F n hp hq hfit hT l s st hn
+      cases hx : optimizeLocation ops sett F l s st with
+      | mk r rest =>
+        obtain ⟨s1, st1⟩ := rest
+        rw [hx] at key
+        have h1 := notLower_trans _ _ _ h key.1
+        cases r with
+        | error e => exact ⟨h1, key.2⟩
+        | ok u => exact ih s0 s1 st1 key.2 h1
+  have hobj : ∀ (o : σ) (s0 s : Seq) (st : St σ K), s.length = n →
+      Score.lt (total ops ev F s) (total ops ev F s0) = false →
+      Score.lt (total ops ev F (optimizeObjective ops sett F o s st).2.1) (total ops ev F s0) = false ∧
+      (optimizeObjective ops sett F o s st).2.1.length = n := by
+    intro o s0 s st hn h
+    simp only [optimizeObjective]
+    split
+    · exact ⟨h, hn⟩
+    · split
+      · exact ⟨h, hn⟩
+      · split
+        · exact ⟨h, hn⟩
+        · exact hlocs _ s0 s _ hn h
+  simp only [optimize]
+  generalize F.objectives.filter (fun o => !ops.passive o && !Score.eq (ops.boost o) (Score.zero : K)) = os
+  suffices hh : ∀ (s1 : Seq) (st : St σ K), s1.length = n → Score.lt (total ops ev F s1) (total ops ev F s) = false →
+      Score.lt (total ops ev F (optimizeEach ops sett F os s1 st).2.1) (total ops ev F s) = false ∧
+      (optimizeEach ops sett F os s1 st).2.1.length = n from (hh s st hn (LawfulScore.lt_irrefl _)).1
+  induction os with
+  | nil => intro s1 st hn1 h; exact ⟨h, hn1⟩
+  | cons o os ih =>
+    intro s1 st hn1 h
+    simp only [optimizeEach]
+    have key := hobj o s s1 st hn1 h
+    cases hx : optimizeObjective ops sett F o s1 st with
+    | mk r rest =>
+      obtain ⟨s2, st2⟩ := rest
+      rw [hx] at key
+      cases r with
+      | error e => exact key
+      | ok u => exact ih s2 st2 key.2 key.1
+
 end Dna.C03
